@@ -20,6 +20,11 @@ m = {
         "path": "/verif/engine",
         "serves_properties": sorted(checks.keys()),
         "kind_free_text": "symbolic executor for Go SSA (golang.org/x/tools/go/ssa, rebuilt from /repo on every run) emitting SMT-LIB2 to a live z3 process; path-wise exploration with solver-checked branch feasibility, obligations discharged as unsat queries, counterexamples returned as models",
+    }, {
+        "name": "evmsym",
+        "path": "/verif/evmsym",
+        "serves_properties": ["C06", "C17"],
+        "kind_free_text": "symbolic executor for EVM byte code (the compiled system contracts, read from /repo on every run) on the z3 Python API: call data, caller, storage, external-call results as solver variables, branch feasibility and obligations decided by z3, counterexamples replayed on go-ethereum's core/vm",
     }],
     "checks": [],
     "notes": meta.get("notes", ""),
@@ -37,7 +42,7 @@ for p in props:
             "engine": "gosmt",
             "level_claimed": {"category": "model_checking", "text": mc["text"], "design_ref": mc.get("design_ref", "DESIGN.md §4 " + p)},
             "level_note": mc["note"],
-            "technique": "bounded symbolic execution of the real Go functions (go/ssa -> SMT-LIB2), every obligation decided by z3 over all inputs within the stated bounds",
+            "technique": "bounded symbolic execution of the real Go functions (go/ssa -> SMT-LIB2), every obligation decided by z3 over all inputs within the stated bounds" + ("; plus bounded symbolic execution of the compiled contracts' EVM byte code (evmsym -> z3)" if p in ("C06", "C17") else ""),
         })
     else:
         m["not_applicable"].append({"property_id": p, "reason": meta.get("not_applicable", {}).get(p, "check not built yet (work in progress)")})
